@@ -53,10 +53,15 @@ ListItemOf == [c \in {"ports", "formals", "events", "instances", "bindings"} |->
                  CASE c = "ports" -> "port" [] c = "formals" -> "formal" [] c = "events" -> "event"
                    [] c = "instances" -> "instance" [] c = "bindings" -> "binding"]
 
+StrShapes == {"empty", "digits", "neg-digits", "double-minus", "superscript", "circled", "minus-only", "space-digits",
+              "float-text", "bool-text", "null-text", "plus-digits", "underscore-digits"}
 F(kind, cls, key, arg) == [kind |-> kind, cls |-> cls, key |-> key, arg |-> arg]
 FaultClasses ==
   {F("delete-key", g.cls, g.key, "") : g \in Grammar}
   \cup {F("retype", g.cls, g.key, ty) : g \in Grammar, ty \in JsonTypes}
+  \* a value of every key replaced by a string that LOOKS like a value of another type (digits, signs, unicode digits,
+  \* words of other JSON types): lenient conversions must not turn them into internal errors
+  \cup {F("retype-str", g.cls, g.key, a) : g \in Grammar, a \in StrShapes}
   \cup {F("delete-class", c, "<class>", "") : c \in Classes}
   \cup {F("retag", c, "<class>", "bogus") : c \in Classes}
   \cup {F("retag", cd[1], "<class>", cd[2]) : cd \in {x \in ElementClasses \X ElementClasses : x[1] # x[2]}}
@@ -90,6 +95,7 @@ Expected(f, pos) ==
          IF f.arg = Decl(f).typ THEN "either"                                  \* same JSON type, other value
          ELSE IF Decl(f).typ = "int" /\ f.arg = "bool" THEN "either"           \* Python: bool is an int
          ELSE "reject"
+    [] f.kind = "retype-str" -> "either"
     [] f.kind \in {"delete-class", "retype-class"} -> IF f.kind = "retype-class" /\ pos # "asserted" THEN "either" ELSE "reject"
     [] f.kind = "retag" -> IF f.arg = "bogus" THEN (IF pos = "asserted" THEN "reject" ELSE "accept")
                            ELSE "either"
